@@ -194,6 +194,10 @@ func (d *PathDecoder) decodeReferenceTargetsForBody(body hcl.Body, parentBlock *
 
 			bodyRef.Type = bodyToDataType(bSchema.Type, bSchema.Body)
 
+			// sort before the target is copied into refs, the nested targets
+			// may be replaced below when the dependent body is data as well
+			sort.Sort(bodyRef.NestedTargets)
+
 			refs = append(refs, bodyRef)
 		}
 
